@@ -21,6 +21,7 @@ LEVEL = "exploration"
 def run_optimize(spec, **kw):
     from glotaran.optimization.optimize import optimize
 
+    kw.setdefault("maximum_number_function_evaluations", 2)  # the parameters must move away from their start values
     scheme = S.build_scheme(spec, **kw)
     with warnings.catch_warnings(record=True) as w:
         warnings.simplefilter("always")
